@@ -13,6 +13,7 @@ import (
 	"os"
 	"path/filepath"
 	"regexp"
+	"runtime/debug"
 	"runtime/pprof"
 	"sort"
 	"strconv"
@@ -29,6 +30,9 @@ import (
 const modulePath = "github.com/gopher-fleece/gleece/v2"
 
 func main() {
+	// the loaded SSA program is a large, long-lived heap; collect rarely
+	debug.SetGCPercent(600)
+	debug.SetMemoryLimit(28 << 30)
 	if len(os.Args) < 2 {
 		fmt.Fprintln(os.Stderr, "usage: gosym run|replay|selftest ...")
 		os.Exit(2)
